@@ -109,6 +109,12 @@ func runC02(rep *Report, r *Rng, tier string) {
 	for i := 0; i < n; i++ {
 		d := genDataSpec(r, 1500, false)
 		c := genIdxCase(r, d, 10, 3, true, true)
+		if i%3 == 0 {
+			c.Other = genDataSpec(r, 200, false)
+			for qi := range c.Queries {
+				c.Queries[qi].Repeat = 1
+			}
+		}
 		rep.Sample0(c)
 		runIdxCase(o, c, rep, flagsFor("C02"))
 	}
@@ -155,6 +161,24 @@ func runC05(rep *Report, r *Rng, tier string) {
 		c := &IdxCase{Data: d, Writer: w, Cache: -1, Queries: []QCase{{E: &Ex{Op: "E", C: hx("c"), V: zero}, GB: []string{hx("c")}}, {E: &Ex{Op: "N", Kids: []*Ex{{Op: "E", C: hx("c"), V: zero}}}}}}
 		runIdxCase(o, c, rep, flagsFor("C05"))
 		rep.Count("corpus-hash-zero")
+	}
+	// a writer used twice (WriteToBoltDatabase, then Flush) still writes everything the second time
+	for k := 0; k < 4; k++ {
+		d := genDataSpec(r, 1500, false)
+		c := genIdxCase(r, d, 6, 2, true, false)
+		c.Writer = "mem2"
+		runIdxCase(o, c, rep, flagsFor("C05"))
+		rep.Count("writer-used-twice")
+	}
+	// one single (column,value) pair holding for exactly 4096*k rows (and one more): container / batching boundaries
+	// for the value with the largest (only) value index
+	for _, n := range []int{4096, 4097, 8192} {
+		for _, w := range writers {
+			d := &DataSpec{Seed: r.U64(), NRows: n, Cols: []ColSpec{{Name: hx("k"), NVals: 1, Dist: "dense", Style: "ascii"}}}
+			c := &IdxCase{Data: d, Writer: w, Cache: -1, Queries: []QCase{{E: &Ex{Op: "E", C: hx("k"), V: hx("0")}, GB: []string{hx("k")}}, {E: &Ex{Op: "N", Kids: []*Ex{{Op: "E", C: hx("k"), V: hx("0")}}}}}}
+			runIdxCase(o, c, rep, flagsFor("C05"))
+			rep.Count("single-value-4096-boundary")
+		}
 	}
 	// both writers on the same rows give the same file contents (keys) and answers: batch boundaries
 	sizes := []int{1001, 2500}
